@@ -154,6 +154,33 @@ def patterns(rng, thorough=False):
     return out
 
 
+def cond_patterns():
+    """f(a, b) = (a cond b) ? 1 : 0 for every integer type and comparison."""
+    from ppci import ir
+
+    out = []
+    names = {"==": "eq", "!=": "ne", "<": "lt", ">": "gt", "<=": "le", ">=": "ge"}
+    for t in ALL:
+        for cond in names:
+            def make(t=t, cond=cond):
+                m = _mod()
+                f, e, (a, b) = _fn(m, "f", "i32", [t, t])
+                yes, no = ir.Block("f_yes"), ir.Block("f_no")
+                f.add_block(yes)
+                f.add_block(no)
+                e.add_instruction(ir.CJump(a, cond, b, yes, no))
+                c1 = ir.Const(1, "c1", ir.i32)
+                yes.add_instruction(c1)
+                yes.add_instruction(ir.Return(c1))
+                c0 = ir.Const(0, "c0", ir.i32)
+                no.add_instruction(c0)
+                no.add_instruction(ir.Return(c0))
+                return m
+
+            out.append(("cond:%s:%s" % (t, names[cond]), make, "f", [t, t], []))
+    return out
+
+
 def cast_patterns():
     """f(a) = cast chain; every cast ppci2wasm knows, observed through a further widening where possible."""
     from ppci import ir
